@@ -6,12 +6,12 @@
    _allocate_job then _free_resources on one location, (base + rq) - job_hardware + usage, never raises and
    gives back base's cores and memory and base + measured usage per mount point, for every base ledger,
    requirement and usage (C11_release_restores_partial: one location, one level; the induction over whole
-   histories and several jobs is not proved — checked on real runs by oracle and correspondence);
+   histories and several jobs is C11_release below, on the flat single-location domain);
    the model's free_loc / reserve_level perform exactly that arithmetic (C11_free_is_sub_then_add).
    Refuted: C11_double_release_needs_conformance (a non-conformant RUNNING after COMPLETED releases twice: negative
    cores); C11_shared_inner_leak_refuted (known finding: doubled inner requirement reserved, single released). *)
 From Coq Require Import List Bool ZArith NArith.
-From SF Require Import Base.Str Hardware.Model Hardware.Proofs Sched.Model Sched.Proofs Sched.Witness.
+From SF Require Import Base.Str Hardware.Model Hardware.Proofs Sched.Model Sched.Proofs Sched.History Sched.Witness Sched.Examples.
 Import ListNotations.
 Local Open Scope string_scope. Local Open Scope list_scope. Local Open Scope Z_scope.
 
@@ -41,6 +41,40 @@ Theorem C11_free_is_sub_then_add : forall jh usage s nm cur u d r,
   exists s', free_loc jh usage (Ok s) nm = Ok s' /\ lookup nm (hwloc s') = Some r /\ jobs s' = jobs s.
 Proof. exact free_loc_ledger. Qed.
 
+(* ---------------------------------------------------------------------------------------------------------
+   C11_release — over whole histories, same domain and same [conformant] as C10_capacity (Props/C10.v): whatever
+   the order of the notifications and however often a status is repeated, in any reachable state in which no job
+   is fireable or running every ledger has cores = memory = 0 and, on every mount point, exactly the sum of what du
+   measured for the released reservations ([measured] folds the du results along the history).
+   C11_release_loc: the same for one location as soon as no fireable/running job sits on it. *)
+Theorem C11_release : forall locs,
+  (forall l1 l2, In l1 locs -> In l2 locs -> lv_name l1 = lv_name l2 -> l1 = l2) ->
+  (forall l cap, In l locs -> lv_cap l = Some cap -> wfr cap /\ In "/" (mounts cap)) ->
+  forall es st nm h,
+  conformant locs init es -> run init es = Ok st ->
+  (forall j a, In (j, a) (jobs st) -> is_active (a_status a) = false) ->
+  lookup nm (hwloc st) = Some h ->
+  cores h = 0 /\ mem h = 0 /\ forall m, size_at h m = measured init es g0 nm (MS m).
+Proof. exact release_invariant. Qed.
+
+Theorem C11_release_loc : forall locs,
+  (forall l1 l2, In l1 locs -> In l2 locs -> lv_name l1 = lv_name l2 -> l1 = l2) ->
+  (forall l cap, In l locs -> lv_cap l = Some cap -> wfr cap /\ In "/" (mounts cap)) ->
+  forall es st nm h,
+  conformant locs init es -> run init es = Ok st ->
+  (forall j a, In (j, a) (jobs st) -> is_active (a_status a) = true -> loc_of a <> Some nm) ->
+  lookup nm (hwloc st) = Some h ->
+  cores h = 0 /\ mem h = 0 /\ forall m, size_at h m = measured init es g0 nm (MS m).
+Proof. exact release_invariant_loc. Qed.
+
+(* instance: the conformant history of Sched/Examples.v (repeated RUNNING and COMPLETED) ends with no fireable/running
+   job, ledger of n0 = 0 cores, 0 memory, 3 on "/" = the measured usage *)
+Example C11_release_hypotheses_met :
+  conformant ex_locs init ex_history /\ no_active (run init ex_history) = true /\
+  ledger (run init ex_history) "n0" = Some (mkhw 0 0 [("/", mkst "/" 3 ["/tmp"] None)]) /\
+  measured init ex_history g0 "n0" (MS "/") = 3.
+Proof. split; [exact ex_conformant|]. vm_compute. repeat split; reflexivity. Qed.
+
 (* a whole conformant history on a plain location: cores and memory back to 0, storage = measured usage 3 *)
 Example C11_plain_history :
   ledger (run init plain_history) "n0" = Some (mkhw 0 0 [("/", mkst "/" 3 ["/tmp"] None)]) /\
@@ -67,5 +101,7 @@ Print Assumptions C11_only_active_release.
 Print Assumptions C11_leaving_active_releases.
 Print Assumptions C11_release_restores_partial.
 Print Assumptions C11_free_is_sub_then_add.
+Print Assumptions C11_release.
+Print Assumptions C11_release_loc.
 Print Assumptions C11_double_release_needs_conformance.
 Print Assumptions C11_shared_inner_leak_refuted.
